@@ -8,6 +8,7 @@ from simlib import Rng, mkspec, random_sched
 PROPERTY = "C18"
 LEVEL = "exploration"
 BUDGET = {"quick": 75, "thorough": 1500}
+MIN_CASES = {"quick": 6000}  # see checklib.Check: quick goes on to this many cases on a loaded machine (up to 3x its budget)
 RULE = ("cases: a valid document for one of the readers (csv, csvlite, tsv, json, jsonl, dkvp, nidx, xtab, pprint, barred pprint, "
         "markdown, usv, asv, yaml, recutils/dcf, gzip/zlib/bzip2-wrapped) x reader options (separators, multi-char IFS/IRS, regex "
         "separators, implicit header, ragged, lazy quotes, comments, BOM, dedupe) with 1-4 stored-byte faults (truncate@k, bit "
